@@ -1,6 +1,7 @@
 package main
 
 import (
+	"go/types"
 	"regexp"
 	"strings"
 
@@ -219,6 +220,9 @@ func (e *Eng) EarlyExits(l *Loop) []ssa.Instruction {
 			continue
 		}
 		b := l.Fn.Blocks[ex[0]]
+		if isUnreachablePanic(b.Succs[ex[1]]) {
+			continue
+		}
 		out = append(out, b.Instrs[len(b.Instrs)-1])
 	}
 	for bi := range l.Blocks {
@@ -426,4 +430,27 @@ func lockBalanceRuleEx(o *Ob, exempt map[string]string, pkgs ...string) {
 	if n == 0 {
 		o.fail("lock-balance-vacuous", "no locking function found in "+strings.Join(pkgs, ", "), "?")
 	}
+}
+
+func structOf(n *types.Named) *types.Struct {
+	st, _ := n.Underlying().(*types.Struct)
+	return st
+}
+
+// isUnreachablePanic recognises the block go/ssa synthesises after a blocking
+// select without default ("blocking select matched no case").
+func isUnreachablePanic(b *ssa.BasicBlock) bool {
+	if len(b.Instrs) == 0 || len(b.Instrs) > 2 {
+		return false
+	}
+	p, ok := b.Instrs[len(b.Instrs)-1].(*ssa.Panic)
+	if !ok {
+		return false
+	}
+	mi, ok := p.X.(*ssa.MakeInterface)
+	if !ok {
+		return false
+	}
+	k, ok := mi.X.(*ssa.Const)
+	return ok && k.Value != nil && strings.Contains(k.Value.ExactString(), "blocking select matched no case")
 }
